@@ -253,6 +253,7 @@ func (ex *Exec) newTimer(d *Term, ticker bool) Value {
 	ex.nextObj++
 	ts := &timerState{ID: len(ex.timers) + 1, ArmedAt: ex.now(), D: d, Ticker: ticker}
 	ts.Ch = &ChanV{ID: ex.nextObj, Cap: 1, Label: fmt.Sprintf("timer%d.C", ts.ID), TimerID: ts.ID}
+	ex.allChans = append(ex.allChans, ts.Ch)
 	ex.timers = append(ex.timers, ts)
 	if ex.conc != nil {
 		ex.concTimerCreated(ts)
